@@ -49,7 +49,15 @@ MANIFEST = dict(
 THEOREMS = ["C14_int", "C14_int_digits", "C14_int_canonical", "C14_float", "C14_literal_is_number_token", "C14_integer_is_number_token", "C14_round_sig_correct", "C14_post", "C14_special"]
 
 SEPS = ["_", ",", " ", "'", "", ".", "\u2009", "\u00a0", "__", "abc", "12345678", "\u2009\u2009\u2009",
-        "123456789", "0", "-", "e", "x_x", "\u066c", "\u00b7", "\u2009\u2009\u2009\u2009"]
+        "123456789", "0", "-", "e", "x_x", "\u066c", "\u00b7", "\u2009\u2009\u2009\u2009",
+        # separators of several DIFFERENT characters (not palindromes): the order of their characters matters
+        ", ", "_'", "' ", "xy", "\u2009_", " _'", "_ ,'", "\u00b7\u2009"]
+SEP_ALPHABET = "_ ,'xy:\u2009\u00a0\u00b7\u066c"       # harmless: nothing from the literal alphabet
+
+
+def random_separator(rng):
+    """a separator of 2..5 characters; most are not palindromes"""
+    return "".join(rng.choice(SEP_ALPHABET) for _ in range(rng.randrange(2, 6)))
 
 
 def bits_of(x):
@@ -261,7 +269,7 @@ def f64_classes(rng, n_random):
 
 def settings(rng):
     r = rng.random()
-    sep = "_" if r < 0.35 else rng.choice(SEPS)
+    sep = "_" if r < 0.35 else random_separator(rng) if r < 0.45 else rng.choice(SEPS)
     thr = 6 if rng.random() < 0.3 else rng.choice([0, 1, 2, 3, 4, 5, 7, 9, 12, 15, 16, 17, 20, 400])
     sig = 6 if rng.random() < 0.3 else rng.choice(list(range(0, 20)) + [30, 100, 255, 256, 257, 300, 512, 1000])
     return thr, sig, sep
@@ -333,7 +341,7 @@ def run(chk):
     for c in corpus:
         cases.append((int(c["bits"], 16), c["thr"], c["sig"], c["sep"]))
     ncorpus = len(cases)
-    vals = f64_classes(chk.rng, 700 if quick else 12000)
+    vals = f64_classes(chk.rng, 700 if quick else 6000)
     for b in vals:
         cases.append((b, 6, 6, "_"))            # default settings
         thr, sig, sep = settings(chk.rng)
@@ -342,22 +350,23 @@ def run(chk):
             thr, sig, sep = settings(chk.rng)
             cases.append((b, thr, sig, sep))
     # integers x every separator x thresholds around their length (grouping decisions)
-    for _ in range(300 if quick else 4000):
+    for _ in range(300 if quick else 3000):
         nd = chk.rng.randrange(1, 17)
         z = chk.rng.randrange(10 ** (nd - 1), min(10 ** nd, 2 ** 53))
         thr = max(0, nd + chk.rng.choice([-1, 0, 0, 1, 2]))
-        cases.append((bits_of(float(z if chk.rng.random() < 0.7 else -z)), thr, 6, chk.rng.choice(SEPS)))
+        cases.append((bits_of(float(z if chk.rng.random() < 0.7 else -z)), thr, 6,
+                      random_separator(chk.rng) if chk.rng.random() < 0.2 else chk.rng.choice(SEPS)))
     seen = set()
     cases = [c for c in cases if not (c in seen or seen.add(c))]
 
-    impl = common.run_harness(binary, "fmt", [line_of(c) for c in cases])
+    impl = common.run_harness(binary, "fmt", [line_of(c) for c in cases], timeout=3000)
     items = []
     for n, c in enumerate(cases):
         o = impl[n]
         obs = "P" if o.startswith("P:") else o.split("|")[0]
         items.append((coq_case(c), obs))
-    bad = common.coq_mismatches(["NumFmt.Model", "NumFmt.Classify", "NumFmt.Exec"], items, "c14",
-                                shard_size=max(250, -(-len(items) // common.NPROC)),
+    bad = common.coq_mismatches(["NumFmt.Model", "NumFmt.Classify", "NumFmt.Exec"], items, "c14", timeout=3000,
+                                shard_size=max(250, min(500, -(-len(items) // common.NPROC))),   # small shards: a loaded machine must not hit the per-shard timeout
                                 prelude="From Coq Require Import PrimFloat ZArith.")   # one wave of coqc processes
 
     # property oracle on every case
